@@ -40,6 +40,12 @@ for line in sys.stdin:
             model = core.build_model(info, dtype=cmd["dtype"], platform="dll")
             I = direct_model.call_kernel(model.make_kernel([q]), {"background": 0.0})
             out["values"] = [float(v) for v in I]
+        elif cmd.get("via") == "nested":
+            # a plugin file that itself loads the probe plugin while it is being loaded (SasView sum-model files)
+            combo = os.path.join(os.path.dirname(plugin), "combo.py")
+            model = core.load_model(combo, dtype=cmd["dtype"], platform="dll")
+            I = direct_model.call_kernel(model.make_kernel([q]), {"background": 0.0, "A_scale": 1.0, "B_scale": 0.0})
+            out["values"] = [float(v) for v in I]
         elif cmd.get("via") == "composite":
             # the plugin as one component of a model expression whose other component is flagged double-only
             model = core.load_model(plugin + "+hardsphere", dtype=cmd["dtype"], platform="dll")
